@@ -113,8 +113,9 @@ class FastHierarchyAnalyzer(HierarchyAnalyzerBase):
                 if not isinstance(choice_node, SelectionChoiceNode):
                     break
 
-                # An infeasible graph is a dead end: its pending choice nodes may already have been removed
-                if choice_node not in graph.graph.nodes and not graph.feasible:
+                # A confirmed incompatibility cannot be resolved by taking more choices: the graph is a dead end (its
+                # pending choice nodes may already have been removed, and continuing may remove the marking nodes)
+                if graph is not self.adsg and graph.has_confirmed_incompatibility_edges():
                     break
 
                 # Get assigned option
